@@ -6,7 +6,7 @@
 From Coq Require Import List NArith ZArith Bool.
 From Coq.Strings Require Import Byte.
 Import ListNotations.
-Require Import MS.Base.GoInt MS.Base.Res MS.Base.Hex MS.Base.Bytes MS.Generated.Src_io MS.Model.Rows MS.Model.Coerce
+Require Import MS.Base.GoInt MS.Base.Res MS.Base.Hex MS.Base.Bytes MS.Base.F32 MS.Generated.Src_io MS.Model.Rows MS.Model.Coerce
                MS.Corr.Common MS.Corr.Blob.
 Local Open Scope Z_scope.
 
@@ -134,3 +134,61 @@ Fixpoint coerce_agree (fuel : nat) (l : list (list byte)) : bool :=
 
 Definition agrees (k : case) : bool :=
   run_agrees init_state (map dec_step (k_steps k)) && coerce_agree 200 (blob (k_coerce k)).
+
+(* ---- the guards and the guarded conclusions, evaluated on the model ---- *)
+(** requests of one bucket: the iteration order of the request map plays no part *)
+Definition in_domain (k : case) : bool :=
+  forallb (fun p => (length (s_reqs (dec_step p)) <=? 1)%nat) (k_steps k).
+
+Fixpoint rows_eqb (a b : list (list byte)) : bool :=
+  match a, b with [], [] => true | x :: a', y :: b' => bytes_eqb x y && rows_eqb a' b' | _, _ => false end.
+
+(** C14_rejected_first_changes_nothing / C14_failed_stores_nothing on the run *)
+Fixpoint run_prop (st : wstate) (steps : list step) : bool :=
+  match steps with
+  | [] => true
+  | s :: rest =>
+      let '(st', code) := write_csm st (s_reqs s) in
+      (match code with
+       | O => true
+       | _ => (length (w_queue st') =? length (w_queue st))%nat
+              && forallb (fun b => rows_eqb (stored st' (b_key b)) (stored st (b_key b))) (w_buckets st')
+       end) && run_prop st' rest
+  end.
+
+Definition int_kind (t : Z) : option ity := match kind_of t with KInt i => Some i | _ => None end.
+
+(** C14_coerce_int_int and C14_coerce_int_f32_guarded on the stand-alone calls *)
+Fixpoint coerce_prop (fuel : nat) (l : list (list byte)) : bool :=
+  match fuel with
+  | O => false
+  | S f =>
+      match l with
+      | [] => true
+      | src :: dst :: data :: _ :: _ :: r =>
+          let st := dec_Z src in let dt := dec_Z dst in
+          (match int_kind st, int_kind dt with
+           | Some si, Some di =>
+               let els := chunks (tsize st) (length data / tsize st) data in
+               match coerce_column st dt data with
+               | Ok d => bytes_eqb d (flat_map (fun b => le_bytes (ity_width di) (wrap di (wrap si (le_val b)))) els)
+               | _ => false
+               end
+           | Some si, None =>
+               if dt =? ET_FLOAT32 then
+                 let els := chunks (tsize st) (length data / tsize st) data in
+                 if forallb (fun b => Z.abs (wrap si (le_val b)) <? 2 ^ 53) els then
+                   match coerce_column st dt data with
+                   | Ok d => bytes_eqb d (flat_map (fun b => le_bytes 4 (F32.f32_bits (F32.f32_of_Z (wrap si (le_val b))))) els)
+                   | _ => false
+                   end
+                 else true
+               else true
+           | _, _ => true
+           end) && coerce_prop f r
+      | _ => false
+      end
+  end.
+
+Definition model_prop (k : case) : bool :=
+  (negb (in_domain k) || run_prop init_state (map dec_step (k_steps k))) && coerce_prop 200 (blob (k_coerce k)).
